@@ -88,10 +88,10 @@ func RunPar(seed int64, p ParProfile) (out []Ev) {
 	for b := 0; b < p.Blocks; b++ {
 		at = append(at, []uint32{uint32(b)*16384 + 5, uint32(b+1)*16384 - 9})
 	}
-	if p.Snap {
-		// beside a snapshot all the rows are in ONE block: the order in which commits reach the recorder is then the order of
-		// that block's latch, which the in-latch logger records exactly (commits to different blocks reach the recorder in an
-		// order nothing observes, and Restore replays them in that order)
+	if p.Snap && seed%2 == 0 {
+		// every other scenario beside a snapshot has all its rows in ONE block: every commit then contends for the latch the
+		// snapshot needs for that block's image (the others spread them over all blocks: commits to different blocks reach the
+		// recorder in an order nothing observes - ColumnTrace's TRestoreReorder)
 		hot := uint32(rnd.Intn(p.Blocks))
 		at = [][]uint32{{hot*16384 + 5, hot*16384 + 700, hot*16384 + 9000, (hot+1)*16384 - 9}}
 	}
@@ -156,7 +156,7 @@ func RunPar(seed int64, p ParProfile) (out []Ev) {
 				}
 			}()
 			time.Sleep(time.Duration(rnd.Intn(1500)) * time.Microsecond)
-			P.Snapshot("sn", "f1", nil)
+			P.Snapshot("sn", "pf1", nil)
 		}()
 	} else {
 		snapDone = 1
@@ -232,13 +232,13 @@ func RunPar(seed int64, p ParProfile) (out []Ev) {
 	defer UninstallHook()
 	if atomic.LoadInt32(&crashed) == 0 {
 		P.Dump(1)
-		if _, ok := w.Blobs["f1"]; ok && p.Snap {
+		if _, ok := w.Blobs["pf1"]; ok && p.Snap {
 			S := w.NewColl("S1", 64, "log", 0)
 			for _, d := range p.Cols {
 				S.CreateColumn(d)
 			}
 			S.C.CreateColumn("zprobe", &probeCol{w})
-			S.Restore("rs", "f1", -1)
+			S.Restore("rs", "pf1", -1)
 			S.Dump(1)
 		}
 	}
